@@ -293,10 +293,13 @@ fn choices(draws: u64, seed: u64, rep: &mut Report) {
             // the number of choices is the same however the distribution is reached
             let by_ref: Choose<'_, El> = IntoDistribution::<&El>::into_distribution(&v).unwrap();
             let cloning: ChooseCloning<'_, El> = IntoDistribution::<El>::into_distribution(&v).unwrap();
-            let seen = [nc_generic(&d), nc_generic(&&d), nc_generic(&by_ref), nc_generic(&&by_ref), nc_generic(&cloning), <&OneOfCloning<Vec<El>, El> as ChoicesDistribution>::num_choices(&&d).get()];
+            let mut d_mut: OneOfCloning<Vec<El>, El> = v.clone().into_distribution().unwrap();
+            let mut cloning_mut: ChooseCloning<'_, El> = IntoDistribution::<El>::into_distribution(&v).unwrap();
+            let through_mut = [nc_generic(&mut d_mut), nc_generic(&mut &mut d_mut), nc_generic(&mut cloning_mut), nc_generic(&&mut cloning_mut)];
+            let seen = [nc_generic(&d), nc_generic(&&d), nc_generic(&by_ref), nc_generic(&&by_ref), nc_generic(&cloning), <&OneOfCloning<Vec<El>, El> as ChoicesDistribution>::num_choices(&&d).get(), through_mut[0], through_mut[1], through_mut[2], through_mut[3]];
             rep.eval();
             if seen.iter().any(|x| *x != n) {
-                rep.violation("C18/choice/num_choices-through-references", || json!({"members": n, "num_choices_seen_through [&D, &&D, &Choose, &&Choose, &ChooseCloning, <&D>::num_choices]": seen}));
+                rep.violation("C18/choice/num_choices-through-references", || json!({"members": n, "num_choices_seen_through [&D, &&D, &Choose, &&Choose, &ChooseCloning, <&D>::num_choices, &mut D, &mut &mut D, &mut ChooseCloning, &&mut ChooseCloning]": seen}));
             }
         }
         drive("Vec.into_distribution (owning, cloning)", n, nc, draws, seed, rep, |r| by_serial(&d.sample(r)));
